@@ -309,7 +309,7 @@ func (h *handler) doQuery(sqlString string, permalink string) (*QueryResult, err
 	var mx sync.Mutex
 	ctx, cancel := context.WithTimeout(context.Background(), h.QueryTimeout)
 	defer cancel()
-	stats, _ := rs.Iterate(ctx, func(inFields core.Fields) error {
+	stats, iterErr := rs.Iterate(ctx, func(inFields core.Fields) error {
 		fields = inFields
 		for _, field := range fields {
 			result.Fields = append(result.Fields, field.Name)
@@ -360,6 +360,10 @@ func (h *handler) doQuery(sqlString string, permalink string) (*QueryResult, err
 		mx.Unlock()
 		return true, nil
 	})
+	if iterErr != nil {
+		// don't present (and cache) a truncated result as a success
+		return nil, iterErr
+	}
 
 	result.TSCardinality = tsCardinality.Count()
 	result.Dims = make([]string, 0, len(dimCardinalities))
